@@ -262,3 +262,67 @@ Example C01_example :
   snd (step sha256 s (ORemove [9%N])) = XPair (XBytes None) (XBool false) /\
   snd (step sha256 s OSave) = XErr.
 Proof. vm_compute. repeat split; try reflexivity; eexists; reflexivity. Qed.
+
+(** *** The node cache is transparent (NodeCache.v: nodedb.go GetNode / SaveNode / SaveRoot /
+    deleteFromPruning / saveNodeFromPruning / Commit over cache/cache.go, a cache that no deletion
+    ever invalidates).  "Cache sizes ... never change any result": for EVERY capacity and every
+    operation list that meets the executable side condition [drun_ok] on the cache-free run
+    (GetNode is not asked for a key whose only copy sits in the uncommitted batch, nor for a key
+    that holds a root record, nonces of saved nodes are not 0 ...), store and batch evolve as
+    without a cache, every read that succeeds without the cache returns the same node with it,
+    and the invariant checked on the running library by [audit cache] ([coherentb]) holds. *)
+From IAVL Require Import Store StoreFacts NodeCache NodeCacheFacts.
+
+Theorem C01_node_cache_transparent :
+  forall (V : Type) (is_node : V -> bool) (eqV : V -> V -> bool),
+    (forall a b, eqV a b = true <-> a = b) ->
+    forall (cap : nat) (ops : list (cop V)) (st : cstate V) (seen0 : list Z),
+      cinv is_node st -> seen_inv seen0 (cache st) ->
+      drun_ok eqV is_node seen0 (forget st) ops = true ->
+      forget (snd (crun is_node cap st ops)) = snd (drun is_node (forget st) ops) /\
+      Forall2 out_refines (fst (drun is_node (forget st) ops)) (fst (crun is_node cap st ops)) /\
+      cinv is_node (snd (crun is_node cap st ops)).
+Proof. exact cache_transparent. Qed.
+Print Assumptions C01_node_cache_transparent.
+
+Theorem C01_node_cache_size_irrelevant :
+  forall (V : Type) (is_node : V -> bool) (eqV : V -> V -> bool),
+    (forall a b, eqV a b = true <-> a = b) ->
+    forall (cap1 cap2 : nat) (ops : list (cop V)) (d : list (Z * Z * V)) (b : list (cwop V)),
+      msorted kcmp d -> drun_ok eqV is_node [] (DState d b) ops = true ->
+      all_found (fst (drun is_node (DState d b) ops)) ->
+      fst (crun is_node cap1 (CState d b []) ops) = fst (crun is_node cap2 (CState d b []) ops).
+Proof. exact cache_size_irrelevant_exact. Qed.
+Print Assumptions C01_node_cache_size_irrelevant.
+
+(** the checker that the harness evaluates on dumps of the real cache and database is the
+    invariant of the theorem *)
+Theorem C01_cache_checker_is_the_invariant :
+  forall (V : Type) (is_node : V -> bool) (eqV : V -> V -> bool),
+    (forall a b, eqV a b = true <-> a = b) ->
+    forall (d : list (Z * Z * V)) (c : lru V),
+      coherentb eqV is_node d c = true <-> coherent is_node d [] c.
+Proof. exact coherentb_spec. Qed.
+Print Assumptions C01_cache_checker_is_the_invariant.
+
+(** the two seeded defects of SaveNode ("leaves an already cached node alone", "no longer caches")
+    break it: a read returns the node of the erased timeline *)
+Theorem C01_save_keep_cached_refuted :
+  exists cap ops v v',
+    okb D0 ops = true /\
+    last (fst (drunE D0 ops)) OUnit = OGot (Some v) /\
+    last (fst (crunE cap E0 ops)) OUnit = OGot (Some v) /\
+    last (fst (crun_keep_cached entry_is_node cap E0 ops)) OUnit = OGot (Some v') /\
+    v <> v'.
+Proof. exact save_keep_cached_refuted. Qed.
+Print Assumptions C01_save_keep_cached_refuted.
+
+Theorem C01_save_without_caching_refuted :
+  exists cap ops v v',
+    okb D0 ops = true /\
+    last (fst (drunE D0 ops)) OUnit = OGot (Some v) /\
+    last (fst (crunE cap E0 ops)) OUnit = OGot (Some v) /\
+    last (fst (crun_no_cache entry_is_node cap E0 ops)) OUnit = OGot (Some v') /\
+    v <> v'.
+Proof. exact save_without_caching_refuted. Qed.
+Print Assumptions C01_save_without_caching_refuted.
